@@ -11,7 +11,7 @@ From Coq Require Export String Ascii.
     requests and that went through the real validator, the instrument table the transformer was
     initialised with (observed, sorted by id), and the messages with the outcome observed from
     [serde_json::from_str] + [StatelessTransformer::transform]. *)
-Record case := mkCase {
+Record stream_case := mkCase {
   c_exch : exch; c_sk : skind; c_subs : list sub; c_confs : list conf;
   c_map : list (string * N); c_msgs : list (msg * outcome) }.
 
@@ -99,14 +99,14 @@ Definition msg_ok (e : exch) (sk : skind) (m : msg) : bool :=
       forallb item_ok items && (if single_item e sk then Nat.eqb (List.length items) 1 else true)
   end.
 
-Definition wf_case (c : case) : bool :=
+Definition wf_case (c : stream_case) : bool :=
   supported (c_exch c) (c_sk c)
   && forallb (fun s => supported_kind (c_exch c) (kind_of (snd s)) && expiry_ok (kind_of (snd s))) (c_subs c)
   && forallb (fun mo => msg_ok (c_exch c) (c_sk c) (fst mo)) (c_msgs c).
 
 (* ---- model = implementation ---------------------------------------------------------------- *)
 
-Definition corr_b (c : case) : bool :=
+Definition corr_b (c : stream_case) : bool :=
   let e := c_exch c in
   let sk := c_sk c in
   let m := transformer_map e sk (c_subs c) (c_confs c) in
@@ -237,13 +237,106 @@ Definition requests_ok (e : exch) (subs : list sub) (confs : list conf) : bool :
   | _ => true
   end.
 
-Definition prop_b (c : case) : bool :=
+Definition prop_b (c : stream_case) : bool :=
   requests_ok (c_exch c) (c_subs c) (c_confs c) &&
   forallb (fun mo => msg_prop (c_exch c) (c_sk c) (c_subs c) (c_confs c) (fst mo) (snd mo)) (c_msgs c).
 
+(* ---- domain of the oracle-soundness theorem (Props/C13.v, C13_oracle_sound) ----------------- *)
+
+Definition strike_plain_b (k : ikind) : bool :=
+  match k with KOption _ _ strike => String.eqb (upper strike) strike | _ => true end.
+
+Fixpoint nodup_b {A : Type} (eqb : A -> A -> bool) (l : list A) : bool :=
+  match l with
+  | [] => true
+  | x :: t => negb (existsb (eqb x) t) && nodup_b eqb t
+  end.
+
+(** payload channel names contain no '|', Bybit symbols no '.' *)
+Definition msg_plain_b (e : exch) (m : msg) : bool :=
+  match m with
+  | MControl _ => true
+  | MData chan sym _ _ =>
+      negb (has_bar chan) &&
+      match family_of e with FBybit => negb (has_char "."%char sym) | _ => true end
+  end.
+
+(** Bitfinex: the venue handed out distinct channel ids, confirmed each market once, on the
+    trades channel, and was asked for the market of every subscribed instrument *)
+Definition confs_ok_b (e : exch) (subs : list sub) (confs : list conf) : bool :=
+  match e with
+  | Bitfinex =>
+      nodup_b N.eqb (map (fun cf : conf => snd cf) confs) &&
+      nodup_b String.eqb (map (fun cf : conf => sub_id (fst (fst cf)) (snd (fst cf))) confs) &&
+      forallb (fun cf : conf => String.eqb (fst (fst cf)) "trades") confs &&
+      requests_ok e subs confs
+  | _ => true
+  end.
+
+Definition in_domain (c : stream_case) : bool :=
+  wf_case c &&
+  forallb (fun s => strike_plain_b (kind_of (snd s))) (c_subs c) &&
+  forallb (fun mo => msg_plain_b (c_exch c) (fst mo)) (c_msgs c) &&
+  confs_ok_b (c_exch c) (c_subs c) (c_confs c).
+
 (** no recorded finding class for this property *)
-Definition known_b (c : case) : N := 0%N.
+Definition known_b (c : stream_case) : N := 0%N.
 
 (** cases outside the stated input requirements are not judged *)
-Definition judge (c : case) : N :=
+Definition stream_judge (c : stream_case) : N :=
   if wf_case c then judge_code (corr_b c) (prop_b c) (known_b c) else 0%N.
+
+(* ---- which subscriptions the dynamic builder accepts ----------------------------------------- *)
+
+Inductive sobs := SYes | SNo | SPanic.
+Inductive vres := VOk (ids : list N) (strictly_sorted : bool) | VErr | VPanic.
+
+Definition sobs_is (b : bool) (o : sobs) : bool :=
+  match o, b with SYes, true | SNo, false => true | _, _ => false end.
+
+Definition same_ids (a b : list N) : bool :=
+  Nat.eqb (List.length a) (List.length b) &&
+  forallb (fun x => existsb (N.eqb x) b) a && forallb (fun x => existsb (N.eqb x) a) b.
+
+Notation triple_obs := (exch * ikind * subkind * sobs * sobs)%type.
+
+Definition triple_corr (t : triple_obs) : bool :=
+  match t with (e, k, sk, o3, o2) => sobs_is (supports_triple e k sk) o3 && sobs_is (supports_kind e k) o2 end.
+(** accepted exactly when [DynamicStreams::init] has a connector arm for the (exchange, kind) pair
+    and the venue endpoint serves the instrument kind; the typed validation must at least
+    accept what the venue serves *)
+Definition triple_prop (t : triple_obs) : bool :=
+  match t with (e, k, sk, o3, o2) =>
+    sobs_is (routed_pair e sk && venue_serves e k) o3 &&
+    (match o2 with SPanic => false | SNo => negb (venue_serves e k) | SYes => true end)
+  end.
+
+Definition batch_corr (b : list dsub * vres) : bool :=
+  match validate_batch (fst b), snd b with
+  | Some ids, VOk obs sorted => same_ids ids obs && sorted
+  | None, VErr => true
+  | _, _ => false
+  end.
+Definition batch_prop (b : list dsub * vres) : bool :=
+  let ok := forallb (fun s : dsub => match s with (_, e, k, sk) => routed_pair e sk && venue_serves e k end) (fst b) in
+  let ids := map (fun s : dsub => fst (fst (fst s))) (fst b) in
+  match snd b with
+  | VOk obs sorted =>
+      ok && sorted && nodup_b N.eqb obs &&
+      forallb (fun x => existsb (N.eqb x) ids) obs && forallb (fun x => existsb (N.eqb x) obs) ids
+  | VErr => negb ok
+  | VPanic => false
+  end.
+
+(** the driver's case type: one market stream, or one batch of builder-validation observations *)
+Inductive case :=
+| CStream (c : stream_case)
+| CSupport (triples : list triple_obs) (batches : list (list dsub * vres)).
+
+Definition judge (c : case) : N :=
+  match c with
+  | CStream s => stream_judge s
+  | CSupport ts bs =>
+      judge_code (forallb triple_corr ts && forallb batch_corr bs)
+                 (forallb triple_prop ts && forallb batch_prop bs) 0
+  end.
